@@ -104,7 +104,8 @@ def eval_parse(case):
 
 
 CODES = ['0', '1', '2', '3', '4', '7', '9', '21', '22', '23', '24', '31', '34', '39', '41', '49', '53', '55', '56', '99', '10', '11',
-         '38;5;200', '38;2;1;2;3', '48;5;7', '48;2;0;255;9', '58;5;1', '58;2;4;5;6', '59', '91', '101', '01', '004', '0031']
+         '38;5;200', '38;2;1;2;3', '48;5;7', '48;2;0;255;9', '58;5;1', '58;2;4;5;6', '59', '91', '101', '01', '004', '0031',
+         '107', '100', '97', '90', '30', '37', '40', '47', '20', '12', '26', '50', '51', '52', '54', '6', '8', '28', '38;5;38', '48;2;48;2;58']
 ODD = ['', '38', '38;5', '38;2;1;2', '48;7', '300', '38;5;256', '1:2', '?1', ' 1', '1 ', '58']
 
 
